@@ -65,11 +65,28 @@ def _q(s):
     return "'" + s.replace("'", "'\\''") + "'"
 
 
-def render(unit, specdir, outdir):
+def _widen_loop_frames(text, names):
+    """Prepend `names` to the assigns clause of every LOOP contract (an assigns clause followed by a loop invariant)."""
+    out, pos = [], 0
+    for m in re.finditer(r"__CPROVER_assigns\(", text):
+        if m.start() < pos:
+            continue
+        cl = L.match_close(text, m.end() - 1)
+        rest = text[cl + 1:cl + 400]
+        if re.match(r"(\s|\\\n)*__CPROVER_loop_invariant", rest):
+            inner = text[m.end():cl]
+            out.append(text[pos:m.end()])
+            out.append(", ".join(names) + (", " if inner.strip() else "") + inner)
+            pos = cl
+    out.append(text[pos:])
+    return "".join(out)
+
+
+def render(unit, specdir, outdir, widen=()):
     """Produce the C translation unit of `unit`; returns (path, info)."""
     tpath = os.path.join(specdir, unit.template)
     tpl = open(tpath).read()
-    info = {"lifted": []}
+    info = {"lifted": [], "lifted_text": ""}
     used = set()
 
     def sub(m):
@@ -80,6 +97,7 @@ def render(unit, specdir, outdir):
             return "VX_NOT_LIFTED_IN_THIS_UNIT(%s)" % key
         used.add(key)
         r = unit.lifts[key].run()
+        info["lifted_text"] += "\n" + r["text"]
         info["lifted"].append({"key": key, "file": r["file"], "line": r["line"], "loops": r["nloops"],
                                "sha1_raw": hashlib.sha1(r["raw"].encode()).hexdigest()[:12],
                                "raw_lines": r["raw"].count("\n") + 1})
@@ -96,6 +114,8 @@ def render(unit, specdir, outdir):
         if ln.startswith('#line 1 "vx_after_'):
             lines[i] = '#line %d "%s"' % (i + 2, path)
     text = "\n".join(lines)
+    if widen:
+        text = _widen_loop_frames(text, list(widen))
     with open(path, "w") as f:
         f.write(text)
     info["template"] = tpl
@@ -104,6 +124,32 @@ def render(unit, specdir, outdir):
 
 
 def verify_unit(unit, prop, specdir, outroot, tier, budget):
+    """verify one unit; if the ONLY failed obligations are loop-frame checks on locals of the lifted text (a refactoring introduced
+    a loop-carried local, e.g. `for (T* next = 0; ...)`), those locals are added to the loop contracts' assigns clauses and the unit
+    is verified again: havocking a variable the invariants do not mention only weakens what is known, so this is sound."""
+    widen = []
+    for _round in range(3):
+        res = _verify_unit_once(unit, prop, specdir, outroot, tier, budget, tuple(widen))
+        if res["status"] != "failed":
+            break
+        names = []
+        for r in res.get("_raw_failed", []):
+            m = re.match(r"Check that (\w+) is assignable", r.get("description", ""))
+            if not (m and ".assigns." in r.get("property", "")):
+                names = None
+                break
+            names.append(m.group(1))
+        lt = res.get("_info", {}).get("lifted_text", "")
+        # only locals DECLARED in the lifted text (never ghost state or parameters of the hand-written signature)
+        if not names or any(n in widen or not re.search(r"(?:\w|\*)[\s\*]+%s\s*(?:=[^=]|;)" % re.escape(n), lt) for n in names):
+            break
+        widen += sorted(set(names))
+    if widen:
+        res["loop_frames_widened_by"] = list(widen)
+    return res
+
+
+def _verify_unit_once(unit, prop, specdir, outroot, tier, budget, widen=()):
     """Returns a result dict; never raises (errors become status 'undecided')."""
     t0 = time.time()
     res = {"unit": unit.name, "kind": unit.kind, "status": "undecided", "reason": "", "obligations": 0,
@@ -113,7 +159,7 @@ def verify_unit(unit, prop, specdir, outroot, tier, budget):
     outdir = os.path.join(outroot, unit.name)
     try:
         shutil.rmtree(outdir, ignore_errors=True)
-        cpath, info = render(unit, specdir, outdir)
+        cpath, info = render(unit, specdir, outdir, widen)
         res["lifted"] = info["lifted"]
         res["c_file"] = cpath
     except L.LiftError as e:
